@@ -78,6 +78,10 @@ def check(run: Run) -> None:
     if ok:
         p, b, q = pushes[0], bvis[0], pops[0]
         ok = event_before(ctx, vc, p, b) and event_before(ctx, vc, b, q) and event_after(ctx, vc, q, b) and p.call is not b.call and b.call is not q.call
+    from ..lib import pop_is_lifo
+
+    for q_ in pops:
+        run.check(pop_is_lifo(q_), "C05.R3", vc, stmt_of(q_.call) if q_.owner is vc else vc.node, "the parameter map removed is the newest one", f"the map at position {', '.join(show(a_) for a_ in q_.args)} of the stack is removed instead of the newest one: after an inner helper call returns, the enclosing call's parameters are no longer substituted", ".pop()")
     run.check(ok, "C05.R3", vc, vc.node, "parameter map pushed before and popped after the body is visited, on every path", "the helper's parameter map is not pushed before / popped after the visit of its body on every path: bindings leak into the rest of the query or are missing in the body")
     if len(pushes) == 1:
         push = pushes[0]
